@@ -1,8 +1,217 @@
-(* C12 -- property theorems only. *)
+(* C12 -- property theorems only.  Each is closed by [exact] of a lemma proved in
+   Proofs/C12.v or Proofs/C12_ex.v; Print Assumptions beneath each.
+
+   view_outcome c r          what the csrf_view wrapper does for configuration c and request r
+                             (Ran | BadOrigin why | BadToken | Raised e), for the repair parameters
+                             regenerated from the source ([the_params]);
+   view_outcome_p pr c r     the same for arbitrary values of the three repair parameters;
+   spec_runs / spec_checked / spec_token_ok / spec_origin_ok   the declarative statement of the property. *)
 From Coq Require Import List NArith Bool.
 Import ListNotations.
-Require Import Verif.Lib.Wire Verif.Gen.Facts_C12 Verif.Model.C12 Verif.Proofs.C12.
+Require Import Verif.Lib.Wire Verif.Lib.Text Verif.Lib.Utf8 Verif.Gen.Facts_C12 Verif.Model.C12 Verif.Proofs.C12 Verif.Proofs.C12_ex.
+Open Scope N_scope.
+
+(* ---- the gate: the protected body runs iff token and origin conditions hold *)
+Theorem C12_csrf_gate : forall c r,
+  wf_tokens c r = true -> (view_outcome c r = Ran <-> spec_runs c r = true).
+Proof. exact csrf_gate. Qed.
+Print Assumptions C12_csrf_gate.
+
+(* for ANY value of the repair parameters: a body that ran had passed both conditions *)
+Theorem C12_body_never_runs_on_failure : forall pr c r,
+  view_outcome_p pr c r = Ran -> spec_runs c r = true.
+Proof. exact body_never_runs_on_failure. Qed.
+Print Assumptions C12_body_never_runs_on_failure.
+
+(* every rejection is BadCSRFToken / BadCSRFOrigin (a 400), never another exception *)
+Theorem C12_rejection_is_400 : forall c r,
+  wf_tokens c r = true -> parse_defined r = true ->
+  view_outcome c r = Ran \/ view_outcome c r = BadToken \/ exists w, view_outcome c r = BadOrigin w.
+Proof. exact rejection_is_400. Qed.
+Print Assumptions C12_rejection_is_400.
+
+(* full statement fails while tokens are compared as latin-1 bytes (witness: body token U+20AC) *)
+Theorem C12_rejection_is_400_refuted_when_latin1 :
+  exists c r, wf_tokens c r = true /\ parse_defined r = true /\
+              view_outcome_p (mkParams true false true) c r = Raised EUnicode.
+Proof. exact rejection_is_400_refuted_when_latin1. Qed.
+Print Assumptions C12_rejection_is_400_refuted_when_latin1.
+
+(* ... and while urlparse's ValueError is not caught (witness: Origin "https://[") *)
+Theorem C12_rejection_is_400_refuted_when_uncaught :
+  exists c r, wf_tokens c r = true /\ parse_defined r = true /\
+              view_outcome_p (mkParams true true false) c r = Raised EValue.
+Proof. exact rejection_is_400_refuted_when_uncaught. Qed.
+Print Assumptions C12_rejection_is_400_refuted_when_uncaught.
+
+(* origin is checked first, then the token *)
+Theorem C12_rejection_kind : forall c r,
+  wf_tokens c r = true -> parse_defined r = true -> spec_checked c r = true ->
+  let o := spec_effective c in
+  let origin_ok := if o_check_origin o then spec_origin_ok (c_settings c) None (o_allow_no_origin o) r else true in
+  (origin_ok = false -> exists w, view_outcome c r = BadOrigin w) /\
+  (origin_ok = true -> spec_token_ok (c_storage c) (o_token o) (o_header o) r = false -> view_outcome c r = BadToken).
+Proof. exact rejection_kind. Qed.
+Print Assumptions C12_rejection_kind.
+
+(* ---- token: byte equality with the stored token; prefix / case-changed / empty tokens fail *)
+Theorem C12_token_ok_iff_equal : forall s token header r,
+  forallb valid_scalar (expected_token s r) = true ->
+  forallb valid_scalar (supplied_token token header r) = true ->
+  (check_csrf_token_p (the_params s) s token header r = TPass <-> supplied_token token header r = expected_token s r) /\
+  (check_csrf_token_p (the_params s) s token header r = TFail <-> supplied_token token header r <> expected_token s r).
+Proof. exact token_pass_iff_equal. Qed.
+Print Assumptions C12_token_ok_iff_equal.
+
+Theorem C12_query_token_ignored : forall pr c r q,
+  view_outcome_p pr c (with_query r q) = view_outcome_p pr c r.
+Proof. exact query_token_ignored. Qed.
+Print Assumptions C12_query_token_ignored.
+
+Theorem C12_empty_header_falls_back_to_body : forall t h r,
+  header_get h r = Some [] \/ header_get h r = None ->
+  supplied_token (Some t) (Some h) r = or_empty (lookup_last t (r_post r)).
+Proof. exact empty_header_falls_back. Qed.
+Print Assumptions C12_empty_header_falls_back_to_body.
+
+Theorem C12_nonempty_header_wins : forall token h r c v,
+  header_get h r = Some (c :: v) -> supplied_token token (Some h) r = c :: v.
+Proof. exact nonempty_header_wins. Qed.
+Print Assumptions C12_nonempty_header_wins.
 
 Theorem C12_strings_differ_spec : forall a b, strings_differ a b = false <-> a = b.
 Proof. exact strings_differ_spec. Qed.
 Print Assumptions C12_strings_differ_spec.
+
+(* ---- origin *)
+Theorem C12_same_domain_spec : forall h p,
+  is_same_domain h p = true <->
+  p <> [] /\ (h = lower p \/
+              exists rest, lower p = 46 :: rest /\ ((exists pre, h = pre ++ lower p) \/ h = rest)).
+Proof. exact same_domain_spec_lemma. Qed.
+Print Assumptions C12_same_domain_spec.
+
+(* check_csrf_origin passes exactly on the documented condition -- for any value of the repair parameters *)
+Theorem C12_origin_pass_iff : forall pr settings caller allow r,
+  fst (check_csrf_origin_p pr settings caller allow r) = OPass <-> spec_origin_ok settings caller allow r = true.
+Proof. exact origin_pass_iff. Qed.
+Print Assumptions C12_origin_pass_iff.
+
+Theorem C12_origin_ok_meaning : forall settings caller allow r,
+  spec_origin_ok settings caller allow r = true <->
+  req_scheme r <> s_https \/
+  (spec_claim r = NoOrigin /\ allow = true) \/
+  (spec_claim r = NullOrigin /\ In s_null (spec_trusted settings caller r)) \/
+  (exists o netloc, spec_claim r = Claims o /\ urlparse_m (r_v6 r) o = PUrl s_https netloc /\
+                    exists p, In p (spec_trusted settings caller r) /\ same_domain_P netloc p).
+Proof. exact origin_ok_meaning. Qed.
+Print Assumptions C12_origin_ok_meaning.
+
+(* ---- requests that are not checked *)
+Theorem C12_safe_method_unchecked : forall pr c r,
+  mem_text (req_method r) (o_safe (effective c)) = true -> view_outcome_p pr c r = Ran.
+Proof. exact safe_method_unchecked. Qed.
+Print Assumptions C12_safe_method_unchecked.
+
+Theorem C12_opted_out_unchecked : forall pr c r, c_explicit c = Some false -> view_outcome_p pr c r = Ran.
+Proof. exact opted_out_unchecked. Qed.
+Print Assumptions C12_opted_out_unchecked.
+
+Theorem C12_exception_view_default_unchecked : forall pr c r,
+  c_exception_only c = true -> c_explicit c <> Some true -> view_outcome_p pr c r = Ran.
+Proof. exact exception_view_default_unchecked. Qed.
+Print Assumptions C12_exception_view_default_unchecked.
+
+Theorem C12_callback_false_unchecked : forall pr c r,
+  o_callback (effective c) = true -> r_cb r = false -> view_outcome_p pr c r = Ran.
+Proof. exact callback_false_unchecked. Qed.
+Print Assumptions C12_callback_false_unchecked.
+
+Theorem C12_nothing_configured_unchecked : forall pr c r,
+  c_defaults c = None -> c_explicit c <> Some true -> view_outcome_p pr c r = Ran.
+Proof. exact nothing_configured_unchecked. Qed.
+Print Assumptions C12_nothing_configured_unchecked.
+
+(* ---- histories: checks sharing one trusted-origins list *)
+Theorem C12_history_independent : forall s settings caller allow rs,
+  origin_history (the_params s) settings caller allow rs =
+  (map (fun r => fst (check_csrf_origin_p (the_params s) settings caller allow r)) rs, caller).
+Proof. exact history_independent. Qed.
+Print Assumptions C12_history_independent.
+
+(* the settings path is history independent whatever the repair parameters (aslist builds a fresh list) *)
+Theorem C12_history_independent_settings : forall pr settings allow rs,
+  origin_history pr settings None allow rs =
+  (map (fun r => fst (check_csrf_origin_p pr settings None allow r)) rs, None).
+Proof. exact history_independent_settings. Qed.
+Print Assumptions C12_history_independent_settings.
+
+(* full statement fails while the caller's list is appended to in place *)
+Theorem C12_history_independent_refuted_when_shared :
+  exists settings caller allow r1 r2,
+    let pr := mkParams false true true in
+    nth 1 (fst (origin_history pr settings (Some caller) allow [r1; r2])) OPass = OPass /\
+    fst (check_csrf_origin_p pr settings (Some caller) allow r2) = OFail RNoMatch /\
+    snd (origin_history pr settings (Some caller) allow [r1; r2]) <> Some caller.
+Proof. exact history_independent_refuted_when_shared. Qed.
+Print Assumptions C12_history_independent_refuted_when_shared.
+
+(* ---- the regenerated facts the statements above rely on *)
+Theorem C12_facts_repairs :
+  copies_trusted = true /\ catches_valueerror = true /\
+  enc_utf8_legacy = true /\ enc_utf8_session = true /\ enc_utf8_cookie = true.
+Proof. exact Facts_ok_repairs. Qed.
+Print Assumptions C12_facts_repairs.
+
+Theorem C12_facts_defaults :
+  builtin_require = false /\ builtin_check_origin = true /\ builtin_allow_no_origin = false /\
+  sdc_require = true /\ sdc_check_origin = true /\ sdc_allow_no_origin = false /\
+  builtin_safe = sdc_safe /\
+  sdc_safe = [[71; 69; 84]; [72; 69; 65; 68]; [79; 80; 84; 73; 79; 78; 83]; [84; 82; 65; 67; 69]] /\
+  builtin_token = sdc_token /\ builtin_header = sdc_header /\ builtin_token = token_arg_default /\
+  builtin_header = header_arg_default.
+Proof. exact Facts_ok_defaults. Qed.
+Print Assumptions C12_facts_defaults.
+
+(* the model's regenerated names, defaults and strings are the documented ones the specification uses *)
+Theorem C12_options_are_documented : forall c, effective c = spec_effective c.
+Proof. exact effective_is_spec. Qed.
+Print Assumptions C12_options_are_documented.
+
+Theorem C12_own_host_documented : forall r, own_host r = spec_own_host r.
+Proof. exact own_host_is_spec. Qed.
+Print Assumptions C12_own_host_documented.
+
+Theorem C12_claimed_origin_documented : forall r,
+  claimed_origin r =
+  match header_get s_origin_hdr r with
+  | None => (env_get lit_HTTP_REFERER r, true)
+  | Some o => (Some (last (split_on 32 o) []), false)
+  end.
+Proof. exact claimed_origin_doc. Qed.
+Print Assumptions C12_claimed_origin_documented.
+
+(* ---- the converse direction on a concrete family: a same-origin request is not turned away *)
+Theorem C12_own_origin_accepted : forall pr settings caller allow r,
+  req_scheme r = s_https ->
+  header_get s_origin_hdr r = Some (s_https ++ [58; 47; 47] ++ spec_own_host r) ->
+  clean_host (spec_own_host r) = true ->
+  fst (check_csrf_origin_p pr settings caller allow r) = OPass.
+Proof. exact own_origin_accepted. Qed.
+Print Assumptions C12_own_origin_accepted.
+
+Theorem C12_same_origin_request_runs : forall c r,
+  wf_tokens c r = true ->
+  req_scheme r = s_https ->
+  header_get s_origin_hdr r = Some (s_https ++ [58; 47; 47] ++ spec_own_host r) ->
+  clean_host (spec_own_host r) = true ->
+  spec_token_ok (c_storage c) (o_token (spec_effective c)) (o_header (spec_effective c)) r = true ->
+  view_outcome c r = Ran.
+Proof. exact same_origin_request_runs. Qed.
+Print Assumptions C12_same_origin_request_runs.
+
+(* neither the parsed query (request.GET) nor the QUERY_STRING environ entry can influence the outcome *)
+Theorem C12_query_string_never_read : forall pr c r v,
+  view_outcome_p pr c (with_query_string r v) = view_outcome_p pr c r.
+Proof. exact query_string_never_read. Qed.
+Print Assumptions C12_query_string_never_read.
